@@ -29,6 +29,10 @@ CORPUS = [
     "main:\n    li a0, 1\n    jal fn_a\n    jal fn_alias\n    addi a7, zero, 10\n    ecall\nfn_a:\nfn_alias:\n    addi a0, a0, 1\n    ret\n",
     "main:\n    li a0, 1\n    jal fn_alias\n    li a7, 10\n    ecall\nfn_a:\nfn_alias:\n    addi a0, a0, 1\n    ret\n",
     "main:\n    li a0, 1\n    jal g1\n    jal g3\n    mv a1, a0\n    jal h\n    li a7, 10\n    ecall\ng1:\ng2:\n\ng3:\n    addi a0, a0, 1\n    beqz a0, g_out\n    addi a0, a0, 2\ng_out:\n    ret\nh:\nh_alias: addi a0, a1, 1\n    ret\n",
+    # x0 stored to a slot and reloaded ("value of x0" travels through the maps), then the
+    # register / the slot is overwritten
+    "main:\n    addi sp, sp, -8\n    sw zero, 0(sp)\n    lw t3, 0(sp)\n    li t3, 5\n    addi a0, t3, 1\n    addi sp, sp, 8\n    li a7, 93\n    ecall\n",
+    "main:\n    addi sp, sp, -8\n    li t0, 7\n    sw zero, 4(sp)\n    sw t0, 4(sp)\n    lw a0, 4(sp)\n    addi a0, a0, 1\n    addi sp, sp, 8\n    li a7, 93\n    ecall\n",
     # computations into the zero register, then uses of x0
     "main:\n    li t0, 5\n    li t1, 6\n    add x0, t0, t1\n    addi a0, x0, 1\n    li a7, 1\n    ecall\n    li a7, 10\n    ecall\n",
     "main:\n    addi sp, sp, -8\n    li t0, 9\n    sw t0, 4(sp)\n    lw zero, 4(sp)\n    add a0, zero, zero\n    addi a0, zero, 2\n    addi sp, sp, 8\n    li a7, 93\n    ecall\n",
